@@ -132,15 +132,21 @@ class SerializerBase(object):
         if type(obj) in (set, dict, tuple, list):
             # we use a ValueError to mirror the exception type returned by serpent and other serializers
             raise ValueError("can't serialize type " + str(obj.__class__) + " into a dict")
-        if hasattr(obj, "_pyroDaemon"):
-            obj._pyroDaemon = None
+        def without_daemon(attributes):
+            # The daemon that a registered pyro object refers to does not travel along with it. The object itself is left
+            # alone: it stays registered, and other serializers keep returning it as a proxy.
+            if attributes.get("_pyroDaemon") is not None:
+                attributes = dict(attributes)
+                attributes["_pyroDaemon"] = None
+            return attributes
+
         if isinstance(obj, BaseException):
             # special case for exceptions
             return {
                 "__class__": obj.__class__.__module__ + "." + obj.__class__.__name__,
                 "__exception__": True,
                 "args": obj.args,
-                "attributes": vars(obj)  # add custom exception attributes
+                "attributes": without_daemon(vars(obj))  # add custom exception attributes
             }
         # note: python 3.11+ object itself now has __getstate__
         has_own_getstate = (
@@ -150,9 +156,9 @@ class SerializerBase(object):
         if has_own_getstate:
             value = obj.__getstate__()
             if isinstance(value, dict):
-                return value
+                return without_daemon(value)
         try:
-            value = dict(vars(obj))  # make sure we can serialize anything that resembles a dict
+            value = without_daemon(dict(vars(obj)))  # make sure we can serialize anything that resembles a dict
             value["__class__"] = obj.__class__.__module__ + "." + obj.__class__.__name__
             return value
         except TypeError:
@@ -161,6 +167,7 @@ class SerializerBase(object):
                 value = {}
                 for slot in obj.__slots__:
                     value[slot] = getattr(obj, slot)
+                value = without_daemon(value)
                 value["__class__"] = obj.__class__.__module__ + "." + obj.__class__.__name__
                 return value
             else:
